@@ -18,6 +18,29 @@ CHECKS = {
     ),
 }
 
+CHECKS["C30"] = dict(
+    category="proof",
+    text=("Coq theorems C30_merge_pairwise_ok / C30_noconflict_meaning / C30_apply_exact prove for every finite set of patch buffers and every "
+          "source that the merged patches are sorted, pairwise non-conflicting inputs and that the fixed source equals the source with an ascending "
+          "chain of disjoint applied patches substituted for exactly their own ranges (others dropped entirely). Model tied by correspondence: "
+          "exhaustive <=2 patches over all ranges of a 4-char source x 3 texts x 1-2 buffers, random 3-4 patch sets with source-only slices, "
+          "malformed stream; plus an independent splice oracle run on the implementation's own output."),
+    note=("Trusted: Coq kernel/vm_compute, hand transcription Model/Patch.v (checked by correspondence), stable-sort model of sorted(). "
+          "Source-only-slice interaction is in the model and under correspondence; the theorem is stated for no source-only slices (C10 covers them). No axioms."),
+    technique="Coq proof over hand model + exhaustive small-scope correspondence + oracle on implementation output",
+    design_ref="§34",
+)
+CHECKS["C33"] = dict(
+    category="proof",
+    text=("Coq theorem C33_reported_once_in_order proves for every violation list that deduplicate_in_source_space's model returns a list with "
+          "pairwise distinct source signatures, sorted by (line, column), containing only inputs and losing no signature; "
+          "C33_signature_ignores_templated_pos shows loop passes collapse. Tied by correspondence on seeded random violation lists built from the "
+          "real error classes, and monitored end to end on Jinja templates with loops and unreached branches."),
+    note=("Trusted: Coq kernel, hand model Model/Dedup.v (description/fix raws abstracted to an interned id), stability of sorted(). No axioms."),
+    technique="Coq proof over hand model + randomized correspondence + end-to-end monitor",
+    design_ref="§37",
+)
+
 NOT_YET = "no check built yet in this round (planned: see DESIGN.md section for this property)"
 
 
